@@ -43,8 +43,19 @@ fn acc_strategy(max_m: usize, max_n: u64, work: u64) -> impl Strategy<Value = Ac
         let wide = wide || ss.q + 1 > 65534;
         // budget in register operations: an insertion touches all m registers until the lower bound becomes active (about m ln m
         // items), afterwards about m^2 / i registers for the i-th item
+        // the minimum of 600 trials must stay affordable: very large sets on large sketches are cut down until 600 trials cost at most
+        // eight times the budget of a case
+        let cost = |n: u64| -> f64 {
+            let (nf, mf) = (n as f64, m as f64);
+            if nf <= mf { nf * mf } else { mf * mf + 4.0 * mf * mf * (nf / mf).ln() + nf }
+        };
+        let mut n = n;
+        while n > 1 && 600.0 * (dup as f64) * cost(n) > 8.0 * work as f64 {
+            n /= 2;
+        }
         let (nf, mf) = (n as f64, m as f64);
-        let per_item_total = if nf <= mf { nf * mf } else { mf * mf + 4.0 * mf * mf * (nf / mf).ln() + nf };
+        let per_item_total = cost(n);
+        let _ = (nf, mf);
         let per_trial = ((dup as f64) * per_item_total + 8.0 * mf) as u64;
         let trials = (work / per_trial.max(1)).clamp(600, 40_000);
         AccCase { wide, m, ss, n, dup, trials, seed }
